@@ -82,7 +82,7 @@ func checkFragment(v, isRoot) (r)
 
 /*@
 module ownership
-props C10 C11
+props C10 C11 C12
 dialect neovm
 
 // C10/C11: NEP-11 accounting and transfer of names.
@@ -151,10 +151,19 @@ func splitAndCheck(name) (r)
   pure
   ensures r == split(name, ".")
 
+// C12: a name cannot be registered while its parent holds records for sub-names of it. The parent's records live under
+// 0x22 ++ ripemd160(parent); a record conflicts if its name is a proper extension "<labels>.<name>" of the name.
+pure pprefix(name Bytes) Bytes = "\x22" ++ ripemd160(name[indexof(name, ".") + 1 :])
+pure recAt(s Store, p Bytes, j Int) RecordState = deser_RecordState(s.get(skey(s, p, j)))
+pure conflicts(rn Bytes, name Bytes) Bool = len(rn) > len(name) && suffixof(name, rn)
+
 func getParentConflictingRecord(ctx, name, fragments) (r)
-  trusted
   pure
-  ensures true
+  requires fragments == split(name, ".") && len(fragments) >= 2
+  ensures [C12] len(r) == 0 ==> forall j Int {recAt(store, pprefix(name), j)} :: 0 <= j && j < cnt(store, pprefix(name)) ==> !conflicts(recAt(store, pprefix(name), j).Name, name)
+  ensures [C12] len(r) != 0 ==> exists j Int :: 0 <= j && j < cnt(store, pprefix(name)) && conflicts(recAt(store, pprefix(name), j).Name, name) && r == recAt(store, pprefix(name), j).Name
+  loop 0
+    invariant forall j Int {recAt(store, pprefix(name), j)} :: 0 <= j && j < $it.pos ==> !conflicts(recAt(store, pprefix(name), j).Name, name)
 
 func putSoaRecord(ctx, name, email, refresh, retry, expire, ttl)
   trusted
@@ -184,6 +193,8 @@ func Register(name, owner, email, refresh, retry, expire, ttl) (ok)
   ensures [C10] ok ==> !okName(old(store), name)
   // the whole parent chain is registered and unexpired
   ensures [C10] forall j Int {sfx(split(name, "."), j)} :: 1 <= j && j < len(split(name, ".")) ==> okName(old(store), sfx(split(name, "."), j))
+  // the parent holds no record for a sub-name of the new name (also when an expired name is registered again)
+  ensures [C12] forall j Int {recAt(old(store), pprefix(name), j)} :: 0 <= j && j < cnt(old(store), pprefix(name)) ==> !conflicts(recAt(old(store), pprefix(name), j).Name, name)
   // the new record
   ensures [C10] ok ==> store.has(nkey(name)) && ns(store, name).Owner == owner && ns(store, name).Name == name
         && ns(store, name).Expiration == now + expire * 1000 && isnil(ns(store, name).Admin) && len(owner) == 20
